@@ -354,6 +354,11 @@ impl World {
         let ctx = ctx.unwrap_or_else(|| self.current_ctx());
         let n = &mut self.nodes[node as usize];
         let most_recent = wid == n.cur_wid;
+        if most_recent && n.fired_cur && n.last == Some(Res::Pending) && !n.in_poll {
+            // the child's readiness bit is (should be) still set from an earlier wake
+            self.stats.p_bit_already_set += 1;
+        }
+        let n = &mut self.nodes[node as usize];
         n.fired_any = true;
         if most_recent {
             n.fired_cur = true;
@@ -418,6 +423,11 @@ impl World {
             }
         };
         let changed = wid != n.cur_wid;
+        if n.self_woke && n.last == Some(Res::Pending) {
+            self.stats.p_repoll_after_selfwake += 1;
+        }
+        let n = &mut self.nodes[id as usize];
+        n.self_woke = false;
         n.cur_wid = wid;
         n.fired_cur = false;
         n.fired_any = false;
@@ -524,7 +534,10 @@ pub fn leaf_poll_common(id: NodeId, cx: &mut Context<'_>) -> LeafAct {
         fire(n, Which::Cur, FireCtx::InPollOf(id));
     }
     if let Some(Step::Pend(WakeMode::SelfNow)) = act.step {
-        with(|w| w.stats.f_selfnow += 1);
+        with(|w| {
+            w.stats.f_selfnow += 1;
+            w.node_mut(id).self_woke = true;
+        });
         fire(id, Which::Cur, FireCtx::InPollOf(id));
     }
     act
